@@ -120,8 +120,7 @@ __asm__(
 "  pop rbp\n"
 "  jmp ext_scramble\n"
 ".endm\n"
-"EXTENTRY 0\nEXTENTRY 1\nEXTENTRY 2\nEXTENTRY 3\nEXTENTRY 4\nEXTENTRY 5\nEXTENTRY 6\nEXTENTRY 7\n"
-"EXTENTRY 8\nEXTENTRY 9\nEXTENTRY 10\nEXTENTRY 11\nEXTENTRY 12\nEXTENTRY 13\nEXTENTRY 14\nEXTENTRY 15\n"
+"@EXTENTRIES@"
 "ext_scramble:\n"
 "  movabs rcx, 0x0c0c0c0c0c0c0c0c\n"
 "  movabs rdx, 0x0d0d0d0d0d0d0d0d\n"
@@ -138,15 +137,14 @@ __asm__(
 ".globl ext_entries\n"
 ".data\n"
 "ext_entries:\n"
-"  .quad ext_entry_0, ext_entry_1, ext_entry_2, ext_entry_3, ext_entry_4, ext_entry_5, ext_entry_6, ext_entry_7\n"
-"  .quad ext_entry_8, ext_entry_9, ext_entry_10, ext_entry_11, ext_entry_12, ext_entry_13, ext_entry_14, ext_entry_15\n"
+"@EXTQUADS@"
 ".text\n"
 ".att_syntax prefix\n"
 );
-extern uint64_t ext_entries[16];
+extern uint64_t ext_entries[NEXT];
 
 /* kinds: 0 none 1 i8 2 u8 3 i16 4 u16 5 i32 6 u32 7 i64 8 u64 9 f32 10 f64 11 ptr */
-struct extdecl { char name[64]; int argkind; int retkind; } exts[16];
+struct extdecl { char name[64]; int argkind; int retkind; } exts[NEXT];
 static int ext_count;
 static char trace[1 << 16];
 static size_t trace_len;
@@ -166,7 +164,7 @@ static uint64_t narrow(uint64_t v, int kind) {
 /* rdi = first integer argument as passed, rsi = external index, rdx -> {xmm0 in, xmm0 out};
    returns rax.  Mirrors vlib.refinterp.default_external. */
 uint64_t ext_c(uint64_t a, uint64_t k, uint64_t *x) {
-  struct extdecl *e = &exts[k & 15];
+  struct extdecl *e = &exts[k % NEXT];
   uint64_t acc;
   const char *p;
   ext_count++;
@@ -204,7 +202,7 @@ int main(int argc, char **argv) {
   if (!f) die("script");
   table = mmap((void *)0x0F000000UL, 4096, PROT_READ | PROT_WRITE, MAP_PRIVATE | MAP_ANONYMOUS | MAP_FIXED, -1, 0);
   if (table == MAP_FAILED) die("table");
-  for (i = 0; i < 16; i++) table[i] = ext_entries[i];
+  for (i = 0; i < NEXT; i++) table[i] = ext_entries[i];
   while (getline(&line, &cap, f) > 0) {
     char op = line[0];
     char *p = line + 1;
@@ -226,7 +224,7 @@ int main(int argc, char **argv) {
     } else if (op == 'E') {
       int k, a, r; char name[64];
       if (sscanf(p, "%d %63s %d %d", &k, name, &a, &r) != 4) die("E");
-      strcpy(exts[k & 15].name, name); exts[k & 15].argkind = a; exts[k & 15].retkind = r;
+      strcpy(exts[k % NEXT].name, name); exts[k % NEXT].argkind = a; exts[k % NEXT].retkind = r;
     } else if (op == 'S') {
       for (i = 0; i < nregions; i++) if (regions[i].writable) {
         regions[i].save = malloc(regions[i].size);
@@ -272,6 +270,11 @@ int main(int argc, char **argv) {
   return 0;
 }
 '''
+
+MAX_EXTERNALS = 64
+IMGRUN_C = IMGRUN_C.replace('"@EXTENTRIES@"', "\n".join('"EXTENTRY %d\\n"' % k for k in range(MAX_EXTERNALS)))
+IMGRUN_C = IMGRUN_C.replace('"@EXTQUADS@"', "\n".join('"  .quad ext_entry_%d\\n"' % k for k in range(MAX_EXTERNALS)))
+IMGRUN_C = "#define NEXT %d\n" % MAX_EXTERNALS + IMGRUN_C
 
 KIND = {"none": 0, "i8": 1, "u8": 2, "i16": 3, "u16": 4, "i32": 5, "u32": 6, "i64": 7, "u64": 8, "f32": 9, "f64": 10,
         "ptr": 11}
